@@ -167,6 +167,40 @@ func r133(c *Ctx, r *R) {
 			st := storedFieldsOf(fin, pin)
 			fl, _ := fieldLoad(st["Allocations"])
 			r.Check(fl != nil && fl.Name() == "dests", "single:pin-allocations", ci.Pos(), "the root pin's allocations are the recorded block destinations", "the root is pinned with allocations other than the destinations its blocks were sent to")
+			// ... on every path: the destinations may be left out only for a
+			// negative factor (pin everywhere). A test like `min > 0` also
+			// drops them for 0, which means "use the cluster default"
+			okAlways := true
+			instrs(fin, func(i ssa.Instruction) {
+				st2, ok := i.(*ssa.Store)
+				if !ok {
+					return
+				}
+				fa, ok := st2.Addr.(*ssa.FieldAddr)
+				if !ok || fieldOfAddr(fa).Name() != "Allocations" {
+					return
+				}
+				for _, g := range guardsOf(st2.Block()) {
+					if g.Derived {
+						continue
+					}
+					x, op, k, isCmp := cmpIntConst(g.Cond)
+					fx, _ := fieldLoad(x)
+					nonNeg := false
+					if isCmp && fx != nil && strings.HasPrefix(fx.Name(), "ReplicationFactor") {
+						switch {
+						case op == token.LSS && k == 0, op == token.LEQ && k == -1:
+							nonNeg = !g.Branch
+						case op == token.GEQ && k == 0, op == token.GTR && k == -1:
+							nonNeg = g.Branch
+						}
+					}
+					if !nonNeg {
+						okAlways = false
+					}
+				}
+			})
+			r.Check(okAlways, "single:pin-allocations-always", ci.Pos(), "the destinations are attached unless the pin is for everyone (negative factor)", "single.Finalize attaches the block destinations only under a test that also excludes factor 0 (`use the cluster default`): such a pin is allocated afresh after its blocks were shipped and can land on peers that never received them")
 			src, _ := originCall(pin)
 			ok := src != nil && nameMatches(callName(src.Common()), "/api.PinWithOpts")
 			if ok {
